@@ -395,6 +395,15 @@ def _case(kind):
             "ParameterCondition": _parameter_case}.get(kind, lambda: _data_case(kind))()
 
 
+def _train_start(spec, cond, it):
+    """what Solver.on_train_start does with every condition before the first training step (move
+    pre-evaluated static data to the training device); done before the second forward call of
+    every second case, so the first call checks the freshly built condition and the later ones
+    the condition as it is during training"""
+    if it == 1 and int(spec.get("rng", 0)) % 2 == 0 and hasattr(cond, "_move_static_data"):
+        cond._move_static_data("cpu")
+
+
 def strategy(tier):
     pool = []
     for k in KINDS:
@@ -1149,6 +1158,7 @@ def _run_sampler_kind(spec, ctx):
     for it in range(int(spec["iters"])):
         before, calls = len(rec.records), len(spy.calls)
         with ctx.lib("forward", feature=ffeat):
+            _train_start(spec, cond, it)
             loss = cond(device="cpu", iteration=it)
         if not _new_records(report, rec, before, static, kind):
             report("sampler-calls", kind, "the condition never sampled its sampler")
@@ -1263,6 +1273,7 @@ def _run_periodic(spec, ctx):
     for it in range(int(spec["iters"])):
         before, calls = (len(rec.records) if rec else 0), len(spy.calls)
         with ctx.lib("forward", feature=ffeat):
+            _train_start(spec, cond, it)
             loss = cond(device="cpu", iteration=it)
         if rec is not None and not _new_records(report, rec, before, static, kind,
                                                 "non_periodic_sampler"):
@@ -1341,6 +1352,7 @@ def _run_integro(spec, ctx):
     for it in range(int(spec["iters"])):
         before, ibefore, calls = len(rec.records), len(irec.records), len(spy.calls)
         with ctx.lib("forward", feature=ffeat):
+            _train_start(spec, cond, it)
             loss = cond(device="cpu", iteration=it)
         ok1 = _new_records(report, rec, before, static, kind)
         ok2 = _new_records(report, irec, ibefore, istatic, kind, "integral_sampler")
@@ -1485,6 +1497,7 @@ def _run_pideeponet(spec, ctx):
         before, calls = len(rec.records), len(spy.calls)
         pbefore = [len(p.records) for p, _, _ in sets]
         with ctx.lib("forward", feature=ffeat):
+            _train_start(spec, cond, it)
             loss = cond(device="cpu", iteration=it)
         if not _new_records(report, rec, before, static, kind, "input_sampler"):
             report("sampler-calls", kind, "the condition never sampled its input sampler")
@@ -1647,6 +1660,7 @@ def _run_data(spec, ctx):
         before = len(loader.records)
         calls = len(spy.calls) if spy else 0
         with ctx.lib("forward", feature=kind + ("|full" if full else "")):
+            _train_start(spec, cond, it)
             loss = cond(device="cpu", iteration=it)
         new = loader.records[before:]
         if (not full and len(new) != 1) or (full and len(new) < 1):
@@ -1737,6 +1751,7 @@ def _run_deeponet_data(spec, ctx):
         before = len(loader.records)
         calls = len(spy.calls) if spy else 0
         with ctx.lib("forward", feature=kind + ("|full" if full else "")):
+            _train_start(spec, cond, it)
             loss = cond(device="cpu", iteration=it)
         new = loader.records[before:]
         if (not full and len(new) != 1) or (full and len(new) < 1):
@@ -1783,6 +1798,7 @@ def _run_parameter(spec, ctx):
     for it in range(int(spec["iters"])):
         calls = len(spy.calls)
         with ctx.lib("forward", feature=kind):
+            _train_start(spec, cond, it)
             loss = cond(device="cpu", iteration=it)
         if len(spy.calls) - calls != 1:
             report("residual-calls", kind, f"penalty called {len(spy.calls) - calls} times")
